@@ -44,6 +44,19 @@
 (*                 still uses it; MakeBytesBufferPool builds its buffers that way (pool.go:116)    *)
 (*   "buf-nil"     MakeBufferPool: an oversized slice does not re-enter the pool, but a nil slice  *)
 (*                 does (pool.go:141-146), so a later Get returns capacity 0 < min                 *)
+(*                                                                            *)
+(* "As observed" choices (documentation silent; written down, never judged    *)
+(* as a divergence - where both outcomes are possible both are allowed):      *)
+(*   AO-1  Resolve() with no function stored yields the zero value and consumes the Once        *)
+(*         (a later Do / Set is a noop); a nil function behaves the same                        *)
+(*   AO-2  a function that panics leaves the zero value cached and the Once consumed; the panic *)
+(*         propagates to the caller of Do / Resolve                                             *)
+(*   AO-3  Map.Get on a present key: the default it fetched from the pool may be put back (the  *)
+(*         cleanup hook runs) or dropped                                                        *)
+(*   AO-4  after FinalizeSetup a nil constructor / hook argument panics like any other          *)
+(*   AO-5  Pool.Put of a nil pointer may or may not enter the pool (the hook is called with it) *)
+(*   AO-6  Defined(): true after NewOnce / Set / Do, unchanged by Resolve; it is "observational"*)
+(*         and is judged only in sequential replays                                             *)
 (***************************************************************************)
 EXTENDS Integers, Sequences, FiniteSets, TLC, Json
 
